@@ -1,9 +1,13 @@
 #include "harness.h"
+#include "prelude.h"
+#include <ctime>
+#include <csignal>
 
 #include <rapidcheck.h>
 #include <unistd.h>
 
 #include <algorithm>
+#include <deque>
 #include <chrono>
 #include <cstdlib>
 #include <cstring>
@@ -135,11 +139,58 @@ void write_stats() {
   write_file(out_path("hashes") + ".bin", hv.data(), hv.size() * sizeof(uint64_t));
 }
 
+// The last cases evaluated by this process, oldest first.  When a failing case does not fail
+// on its own in a fresh process, the result depended on what ran before it: the history file
+// (written once, at the first failure of the process) lets ./check replay the same sequence
+// in a fresh process and report the sequence as the reproduction.
+constexpr size_t kHistory = 8;
+std::deque<std::vector<uint8_t>>& history() { static auto* h = new std::deque<std::vector<uint8_t>>; return *h; }
+bool g_history_written = false;
+const char kHistMagic[] = "VFHIST1\n";
+void write_history(const std::string& path) {
+  if (g_history_written) return;
+  g_history_written = true;
+  std::string out(kHistMagic, 8);
+  auto put32 = [&](uint32_t x) { for (int i = 0; i < 4; i++) out.push_back((char)(x >> (8 * i))); };
+  put32((uint32_t)history().size());
+  for (auto& v : history()) { put32((uint32_t)v.size()); out.append((const char*)v.data(), v.size()); }
+  write_file(path, out.data(), out.size());
+}
+bool parse_history(const std::vector<uint8_t>& f, std::vector<std::vector<uint8_t>>& cases) {
+  if (f.size() < 12 || memcmp(f.data(), kHistMagic, 8) != 0) return false;
+  auto get32 = [&](size_t at) { return (uint32_t)f[at] | ((uint32_t)f[at + 1] << 8) | ((uint32_t)f[at + 2] << 16) | ((uint32_t)f[at + 3] << 24); };
+  size_t pos = 8;
+  uint32_t n = get32(pos); pos += 4;
+  for (uint32_t i = 0; i < n; i++) {
+    if (pos + 4 > f.size()) return false;
+    uint32_t len = get32(pos); pos += 4;
+    if (pos + len > f.size()) return false;
+    cases.emplace_back(f.begin() + (long)pos, f.begin() + (long)(pos + len));
+    pos += len;
+  }
+  return !cases.empty();
+}
+
 void death_callback() {
   if (g_out_dir.empty()) return;
-  if (g_cur_data) write_file(out_path("crash") + ".bin", g_cur_data, g_cur_size);
+  if (g_cur_data) { write_file(out_path("crash") + ".bin", g_cur_data, g_cur_size); write_history(out_path("crash") + ".hist"); }
   if (!g_stats_written) write_stats();
 }
+
+// Per-case watchdog for the rc and enum engines (libFuzzer has its own -timeout): a case that
+// runs longer than the budget ends the process with exit code 77 after saving the input as
+// slowcase-<pid>.bin.  ./check reports that as INCONCLUSIVE, never as a violation.
+unsigned g_watchdog_secs = 0;
+void watchdog_handler(int) {
+  signal(SIGALRM, SIG_DFL);
+  alarm(10);  // if the best-effort bookkeeping below blocks, the default action ends the process
+  static const char msg[] = "SLOWCASE: one case exceeded the per-case time budget\n";
+  (void)!write(2, msg, sizeof msg - 1);
+  if (!g_out_dir.empty() && g_cur_data) write_file(out_path("slowcase") + ".bin", g_cur_data, g_cur_size);
+  if (!g_out_dir.empty() && !g_stats_written) write_stats();
+  _exit(77);
+}
+void watchdog_arm() { if (g_watchdog_secs) alarm(g_watchdog_secs); }
 
 bool want_render_now() {
   uint64_t n = g.evals;
@@ -149,9 +200,23 @@ bool want_render_now() {
 Case eval(const uint8_t* d, size_t n, bool force_render) {
   g_cur_data = d;
   g_cur_size = n;
+  history().emplace_back(d, d + n);
+  if (history().size() > kHistory) history().pop_front();
+  watchdog_arm();
+  // history independence: unrelated library calls in front of a quarter of the cases
+  if (unsigned k = prelude(fnv1a(std::string_view((const char*)d, n), 0x9e1de))) { static int t = tag_register("with_prelude_of_unrelated_calls"); tag_hit(t); (void)k; }
   Case c;
   c.want_render = force_render || (g.samples.size() < kMaxSamples && want_render_now());
-  run_case(d, n, c);
+  // an exception that leaves the tested code is a program termination for a caller that
+  // does not expect one (none of the tested APIs documents a throw): a failure of the case
+  // in every mode (rapidcheck would otherwise catch it itself and shrink without a record)
+  try {
+    run_case(d, n, c);
+  } catch (const std::exception& e) {
+    c.fail(std::string("uncaught exception leaves the tested code: ") + e.what());
+  } catch (...) {
+    c.fail("uncaught exception (not derived from std::exception) leaves the tested code");
+  }
   g.evals++;
   if (c.excluded) { g.excluded++; g.excluded_by[c.excluded_by]++; }
   if (c.nontrivial) {
@@ -175,6 +240,7 @@ Case eval(const uint8_t* d, size_t n, bool force_render) {
 void record_failure(const uint8_t* d, size_t n, const Case& c, const char* stem) {
   if (g_out_dir.empty()) return;
   write_file(out_path(stem) + ".bin", d, n);
+  write_history(out_path(stem) + ".hist");
   Case r;
   r.want_render = true;
   run_case(d, n, r);  // re-run only to obtain the rendering
@@ -280,15 +346,26 @@ int main(int argc, char** argv) {
   }
   if (__sanitizer_set_death_callback) __sanitizer_set_death_callback(death_callback);
 
+  if (g_mode == "rc" || g_mode == "enum") {
+    g_watchdog_secs = 300;
+    if (const char* w = getenv("VERIF_CASE_TIMEOUT")) g_watchdog_secs = (unsigned)atoi(w);
+    signal(SIGALRM, watchdog_handler);
+  }
   if (g_mode == "rc") {
     size_t maxlen = PROPERTY_MAXLEN;
     if (const char* m = getenv("VERIF_MAXLEN")) maxlen = (size_t)atol(m);
     auto gen = gen_bytes(maxlen);
+    time_t first_fail = 0;
     bool ok = rc::check(std::string("property ") + PROPERTY_ID, [&] {
       auto v = *gen;
+      // minimisation budget: 90 s after the first failure the remaining shrink candidates are
+      // waved through, so rapidcheck stops at the smallest failing case recorded so far (the
+      // verdict never depends on this clock, only how small the replay file gets)
+      if (first_fail && time(nullptr) - first_fail > 90) return;
       Case c = eval(v.data(), v.size(), false);
       if (!c.ok) {
         if (getenv("VERIF_KEEP_GOING")) return;  // triage aid, never set by ./check
+        if (!first_fail) first_fail = time(nullptr);
         record_failure(v.data(), v.size(), c, "rcfail");
         RC_FAIL(c.failure);
       }
@@ -300,6 +377,13 @@ int main(int argc, char** argv) {
     int bad = 0;
     for (int i = 2; i < argc; i++) {
       auto v = read_all(argv[i]);
+      std::vector<std::vector<uint8_t>> seq;
+      if (parse_history(v, seq)) {
+        // a history: every case is evaluated in order, the verdict is the last one's
+        for (size_t k = 0; k + 1 < seq.size(); k++) eval(seq[k].data(), seq[k].size(), false);
+        v = seq.back();
+        printf("HISTORY %s: %zu cases evaluated in order; the last one is judged\n", argv[i], seq.size());
+      }
       Case c = eval(v.data(), v.size(), true);
       bool quiet = getenv("VERIF_QUIET") != nullptr;
       if (!quiet || !c.ok) printf("REPLAY %s: %s%s\n  case: %s\n", argv[i], c.ok ? "ok" : "FAIL ", c.ok ? (c.excluded ? " (excluded)" : "") : c.failure.c_str(), c.render.c_str());
